@@ -203,8 +203,8 @@ class C02(Prop):
         four = [s for s in structs if len(s[0]) == 4]
         four = [four[i] for i in rng.permutation(len(four))]
         if quick:
-            paths = four[:260] + small
-            inter = four[260:480] + small[::3]
+            paths = four[:200] + small
+            inter = four[200:360] + small[::3]
         else:
             paths = four + small
             inter = four + small
